@@ -99,7 +99,12 @@ ROLES_T = ("low", "near", "mid", "high")
 # to 1 for these materials and G has no effect at all; 5, 20 give n_bm = 1.04, 1.37 (Steel, R_m = 500).
 G_OF_ROLE = {"low": 0.1, "near": 5.0, "mid": 20.0, "high": 2.0}
 G_BY_POSITION = (0.1, 20.0, 5.0)                            # ... for batches of points with equal loads
+NODE_LABELS = (9, 5, 8, 2)                                  # node ids of a batch: neither ascending nor descending
 G_LABELS = (8, 5, 9, 3)                                     # index labels of the G series (arbitrary by contract; deliberately not ascending)
+
+
+def _loads_of(case):
+    return [float(x) for x in case["loads"]] if "loads" in case else TEMPLATES[case["template"]]
 
 
 def _ratio(template, role):
@@ -112,6 +117,22 @@ SCALES_Q = (1.0, 1.1, 1.5)
 SCALES_T = (1.0, 1.01, 1.02, 1.03, 1.04, 1.05, 1.06, 1.07, 1.08, 1.09, 1.1, 1.2, 1.3, 1.5, 2.0)
 
 O_TEMPLATES = tuple(t for t in T_TEMPLATES if t not in Q_TEMPLATES)
+
+# every alternating (each sample a reversal) sequence over six load levels: which of the crack opening cases of
+# P_RAJ, which memory rule of the HCM and which branch a hysteresis falls into then differs between co-assessed
+# points in every combination such short sequences can produce.  The levels avoid the edges of the look-up table.
+ENUM_LEVELS = (-301, -187, -61, 59, 183, 301)
+ENUM_RATIOS_Q = ((1.0, 0.7),)
+ENUM_RATIOS_T = ((1.0, 0.7), (0.7, 1.0), (0.45, 1.3, 1.0))
+
+
+def zigzags(n):
+    out = []
+    for s_ in itertools.product(ENUM_LEVELS, repeat=n):
+        d = [b - a for a, b in zip(s_, s_[1:])]
+        if all(x != 0 for x in d) and all(d[i] * d[i + 1] < 0 for i in range(len(d) - 1)) and not on_lut_edge(s_):
+            out.append(list(s_))
+    return out
 
 
 def _plan(tier):
@@ -159,6 +180,11 @@ def bounds(tier):
                   "G": ["uniform", "per-point %r" % (G_OF_ROLE,)],
                   "selections": "all orders up to size %d, rotations above, plus (1,1) and (1,1,1)" % (2 if q else 3),
                   "n_selections": len(_selections(ROLES_Q if q else ROLES_T, tier))},
+        "batch-node-ids": "every selection of >= 2 different ratios again with node ids %r" % (NODE_LABELS,),
+        "batch-after": "every such selection again after a batch of other ratios with the same largest one, in one process",
+        "batch-enumerated": {"levels": ENUM_LEVELS, "lengths": [4] if q else [4, 5],
+                             "sequences": sum(len(zigzags(n)) for n in ((4,) if q else (4, 5))),
+                             "ratios": ENUM_RATIOS_Q if q else ENUM_RATIOS_T, "parameter_set": "steel-normal"},
         "refine": {"parameter_set x templates": plan["refine"],
                    "insertions": "repeat / midpoint in every cyclic gap, wrap-around gap on both sides"
                                  + ("" if q else "; plus all pairs of interior insertions for templates of length <= 8 (steel-normal)")},
@@ -177,7 +203,7 @@ def prepare(tier):
 # ---------------------------------------------------------------------------------------------------------------
 # calling pyLife
 # ---------------------------------------------------------------------------------------------------------------
-def _assess(params, loads, ratios=None, g=None):
+def _assess(params, loads, ratios=None, g=None, node_ids=None):
     """One call.  ratios None -> single point (plain Series); else a (load_step, node_id) batch.
     g: None (take params['G']), float, or list of per-point values.  Returns dict observable -> list of floats/bools."""
     import pandas as pd
@@ -190,7 +216,8 @@ def _assess(params, loads, ratios=None, g=None):
         n = 1
     else:
         n = len(ratios)
-        idx = pd.MultiIndex.from_product([range(len(loads)), range(n)], names=["load_step", "node_id"])
+        idx = pd.MultiIndex.from_product([range(len(loads)), list(node_ids) if node_ids else range(n)],
+                                         names=["load_step", "node_id"])
         # same floating point values as the single runs: load * ratio
         vals = [float(np.float64(l) * np.float64(r)) for l in loads for r in ratios]
         ls = pd.Series(vals, index=idx, dtype=float)
@@ -242,7 +269,7 @@ def _scaled(loads, f):
 # ---------------------------------------------------------------------------------------------------------------
 def check_batch(case, cache=None):
     """case: {kind, template, params, gmode, ratios}.  -> (violations, n_calls, nontrivial, outcome)"""
-    loads, params = TEMPLATES[case["template"]], PARAMS[case["params"]]
+    loads, params = _loads_of(case), PARAMS[case["params"]]
     ratios = [float(r) for r in case["ratios"]]
     per_point = case["gmode"] == "per-point"
     gs = [float(g) for g in case["gs"]] if per_point else None
@@ -250,7 +277,7 @@ def check_batch(case, cache=None):
     viol = []
     singles = []
     for i, r in enumerate(ratios):
-        key = (case["template"], case["params"], r, gs[i] if per_point else None)
+        key = (tuple(loads), case["params"], r, gs[i] if per_point else None)
         if cache is not None and key in cache:
             singles.append(cache[key])
             continue
@@ -259,7 +286,12 @@ def check_batch(case, cache=None):
         if cache is not None:
             cache[key] = (s, err)
         singles.append((s, err))
-    b, err = _try(_assess, params, loads, ratios, gs)
+    if case.get("after"):
+        # an earlier assessment of other points in the same process (its results are not judged here)
+        a = case["after"]
+        _try(_assess, params, loads, [float(r) for r in a["ratios"]], a.get("gs"), a.get("node_ids"))
+        calls += 1
+    b, err = _try(_assess, params, loads, ratios, gs, case.get("node_ids"))
     calls += 1
     if err is not None:
         if all(e is None for _, e in singles):
@@ -528,6 +560,28 @@ def shards(tier):
                         cases.append(case)
                     for i in range(0, len(cases), 8):
                         out.append(cases[i:i + 8])
+    # the same selections with node ids that are not ascending, and after an assessment of other points in the
+    # same process (same number of points, same largest maximum)
+    for ps, ts in plan["batch"]:
+        for t in ts:
+            cases = []
+            for roles in sel:
+                if len(roles) < 2 or len(set(roles)) < 2:
+                    continue
+                base = {"kind": "batch", "template": t, "params": ps, "gmode": "uniform", "ratios": [_ratio(t, r) for r in roles]}
+                cases.append(dict(base, node_ids=list(NODE_LABELS[:len(roles)])))
+                others = [o for o in sel if len(o) == len(roles) and o != roles and len(set(o)) == len(o)
+                          and max(_ratio(t, r) for r in o) == max(base["ratios"])]
+                for o in others[:2]:
+                    cases.append(dict(base, after={"ratios": [_ratio(t, r) for r in o]}))
+            for i in range(0, len(cases), 8):
+                out.append(cases[i:i + 8])
+    # enumerated short sequences
+    for n in ((4,) if q else (4, 5)):
+        cases = [{"kind": "batch", "loads": z, "params": "steel-normal", "gmode": "uniform", "ratios": list(r)}
+                 for z in zigzags(n) for r in (ENUM_RATIOS_Q if q else ENUM_RATIOS_T)]
+        for i in range(0, len(cases), 24):
+            out.append(cases[i:i + 24])
     # refinement
     for ps, ts in plan["refine"]:
         for t in ts:
